@@ -1,3 +1,4 @@
 pub mod io;
 pub mod prog;
 pub mod l2gen;
+pub mod xzgen;
